@@ -278,7 +278,7 @@ macro_rules! plumbing_ext {
                     p2[bit / 8] ^= 1 << (bit % 8);
                     assert!(!PublicKey::from(p2).verify(&m, &sig), "a tampered public key does not verify");
                 }
-                kani::cover!(what == 0 && L > 0, "message bit flipped");
+                kani::cover!(L == 0 || what == 0, "message bit flipped (not applicable to the empty message)");
                 kani::cover!(what == 1 && bit == 0, "first signature bit flipped");
             }
             core::mem::forget(r);
